@@ -59,5 +59,9 @@ func TestVerifC12Fp448(t *testing.T) {
 	if P() != ty.From(ty.F.P) || One() != ty.From(big.NewInt(1)) {
 		vlib.ReportDirect(t, "C12/fp448/P/api/wrong-constant", "P() is not 2^448-2^224-1 or One() is not 1", nil)
 	}
+	for _, be := range bes[1:] {
+		be.Select()
+		kit.SweepPredicates(t, &kit.Preds[Elt]{F: ty.F, Type: "fp448", Backend: be.Backend, From: ty.From, IsZero: IsZero, IsOne: IsOne})
+	}
 	vlib.Check(t, vlib.N(20000, 100000), func(t *rapid.T) { kit.CheckElt(t, ty, bes) })
 }
